@@ -14,6 +14,7 @@ import (
 	"bufio"
 	"encoding/json"
 	"os"
+	"strconv"
 	"testing"
 
 	"github.com/aergoio/aergo/v2/config"
@@ -26,7 +27,11 @@ type c08ChainCons struct {
 	lib   uint64
 	calls []int64
 	idOf  map[string]int
+	last  int64 // id of the block of the last Update: "the status" of this stub
 }
+
+// key under which the stub persists its status through the TxWriter the chain service hands it
+var c08SavedKey = []byte("c08.saved.status")
 
 func (c *c08ChainCons) id(b *types.Block) int64 {
 	if v, ok := c.idOf[b.ID()]; ok {
@@ -44,9 +49,12 @@ func (c *c08ChainCons) NeedReorganization(rootNo types.BlockNo) bool {
 }
 func (c *c08ChainCons) Update(b *types.Block) {
 	c.calls = append(c.calls, 3, c.id(b))
+	c.last = c.id(b)
 }
 func (c *c08ChainCons) Save(tx consensus.TxWriter) error {
 	c.calls = append(c.calls, 4)
+	// what dpos.Status.Save does with its gob: written into the chain service's write unit
+	tx.Set(c08SavedKey, []byte(strconv.FormatInt(c.last, 10)))
 	return nil
 }
 func (c *c08ChainCons) VerifySign(b *types.Block) error {
@@ -59,6 +67,7 @@ func (c *c08ChainCons) IsBlockValid(b *types.Block, best *types.Block) error {
 }
 
 type c08ChainObs struct {
+	Saved int64   `json:"saved"` // status found in the chain DB after the call (what a restart would load), -1 = none
 	Calls []int64 `json:"calls"`
 	Err   string  `json:"err"`
 	Best  int64   `json:"best"`
@@ -137,6 +146,10 @@ func TestVerifC08ChainEngine(t *testing.T) {
 				}
 				best, _ := cs.GetBestBlock()
 				o.Best = cons.id(best)
+				o.Saved = -1
+				if v := cs.cdb.store.Get(c08SavedKey); len(v) > 0 {
+					o.Saved, _ = strconv.ParseInt(string(v), 10, 64)
+				}
 				for no := uint64(0); no <= best.BlockNo(); no++ {
 					b, err := cs.getBlockByNo(no)
 					if err != nil {
